@@ -26,9 +26,9 @@ def gen_treeinfo(rng, R=None):
     layered = rng.random() < 0.25
     d = {
         "release": {"name": rng.choice(["Fedora", "Red Hat Enterprise Linux", "Fedora ;Server Edition", "Spacewalk #1 = x: y"]),
-                    "short": rng.choice(["Fedora", "RHEL"]),
+                    "short": rng.choice(["Fedora", "RHEL", "Fedora", "RHEL", "", "F 2"]),
                     "version": rng.choice(["22", "7.9", "Rawhide", "6.5"]), "is_layered": layered},
-        "base_product": {"name": "Base", "short": "B", "version": rng.choice(["7", "Rawhide"])} if layered else None,
+        "base_product": {"name": "Base", "short": rng.choice(["B", "B", ""]), "version": rng.choice(["7", "Rawhide"])} if layered else None,
         "tree": {"arch": arch, "build_timestamp": rng.choice([1440000000, 1, rng.randint(10 ** 8, 2 * 10 ** 9), -1]),
                  "platforms": sorted(set(rng.sample([arch, "xen", "ppc64"], rng.randint(0, 3))))},
         "variants": {}, "images": {}, "stage2": {"mainimage": None, "instimage": None},
@@ -102,8 +102,10 @@ def build_treeinfo(d):
 
 def gen_discinfo(rng):
     return {"timestamp": rng.choice([1440000000.123, 1.0, 12345.678901, float(rng.randint(1, 2 * 10 ** 9)) + 0.5]),
-            "description": rng.choice(["Fedora 22", "Red Hat Enterprise Linux 7.9", "x"]),
-            "arch": rng.choice(ARCHES[:4]), "disc_numbers": rng.choice([["ALL"], [1], [1, 2, 3], [2]])}
+            # single-line text: only "\n" ends a line of the file; other separators and controls inside a value are content
+            "description": rng.choice(["Fedora 22", "Red Hat Enterprise Linux 7.9", "x", "Fedora\x0b22", "A\x0cB c", "x\x1cy", "x\x1dy\x1ez",
+                                       "Fedora\x8522", "x\u2028y", "a\u2029b", "tab\there", "caf\u00e9 1.0"]),
+            "arch": rng.choice(ARCHES[:4] + ["x86\x8564", "ppc\u2028le"]), "disc_numbers": rng.choice([["ALL"], [1], [1, 2, 3], [2]])}
 
 
 def build_discinfo(d):
